@@ -197,3 +197,7 @@ pub mod macros {
 
     pub(crate) use gen_bitrange_const;
 }
+
+#[cfg(kani)]
+#[path = "/verif/kani/sciparse/c02_layout.rs"]
+mod verif_c02_layout;
